@@ -77,6 +77,7 @@ static std::string run_history(const HistSpec &h, bool *nontriv) {
   std::set<int> skip;
   draco::EncoderBuffer bufs[2];
   std::vector<std::vector<char>> streams;
+  std::vector<char> stream_matches_f19;  // open finding F19 (decoder refuses very small compressed-connectivity streams)
   SplitMix tg(h.tail_seed);
   int last_kind = -1;
   bool after_failure = false;
@@ -119,6 +120,12 @@ static std::string run_history(const HistSpec &h, bool *nontriv) {
         }
         if (fresh.num_encoded_points() != enc.num_encoded_points() || fresh.num_encoded_faces() != enc.num_encoded_faces()) return at + "reported counts depend on history";
         streams.emplace_back(fb.data(), fb.data() + fb.size());
+        {
+          EncodeResult er;
+          er.status = draco::OkStatus();
+          finish_result(fb, &er);
+          stream_matches_f19.push_back(open_finding("F19") && f19_signature(er, h.pool[k]));
+        }
         count("encoder_encodes");
         if ((last_kind != 1 && last_kind != -1) || after_failure || !op.clear) *nontriv = true;
         break;
@@ -168,6 +175,12 @@ static std::string run_history(const HistSpec &h, bool *nontriv) {
                  std::to_string(b.size() - before) + " vs " + std::to_string(fb.size()) + " bytes)";
         }
         streams.emplace_back(fb.data(), fb.data() + fb.size());
+        {
+          EncodeResult er;
+          er.status = draco::OkStatus();
+          finish_result(fb, &er);
+          stream_matches_f19.push_back(open_finding("F19") && f19_signature(er, h.pool[k]));
+        }
         count("expert_encodes");
         if ((last_kind != 3 && last_kind != -1) || after_failure || !op.clear) *nontriv = true;
         break;
@@ -187,17 +200,23 @@ static std::string run_history(const HistSpec &h, bool *nontriv) {
         DecodeResult fr = decode_with(fresh, s, &frem);
         if (digest_of(r) != digest_of(fr)) return at + "reused Decoder returns a different geometry than a fresh Decoder with the same options";
         if (r.status.ok() && rem != 0) return at + "a successful decode leaves " + std::to_string(rem) + " bytes of the stream unconsumed";
-        // trailing bytes: decoding must not depend on what follows the stream, and must consume exactly the stream
-        if (r.status.ok()) {
+        // trailing bytes: decoding (success and result) must not depend on what follows the stream, and a successful
+        // decode must consume exactly the stream
+        {
           std::vector<char> t = s;
-          const int n = 1 + static_cast<int>(tg.below(64));
+          const int n = 1 + static_cast<int>(tg.below(tg.below(8) == 0 ? 70000 : 64));
           for (int i = 0; i < n; ++i) t.push_back(static_cast<char>(tg.next()));
           int64_t trem = -1;
           DecodeResult tr = decode_with(fresh, t, &trem);
+          if (tr.status.ok() != fr.status.ok()) {
+            return at + "the stream alone " + (fr.status.ok() ? "decodes" : "fails to decode") + " but with " + std::to_string(n) + " trailing bytes it " +
+                   (tr.status.ok() ? "decodes" : "fails to decode");
+          }
           if (digest_of(tr) != digest_of(fr)) return at + "decoding depends on bytes that follow the stream";
-          if (trem != n) return at + "with " + std::to_string(n) + " trailing bytes the decoder leaves " + std::to_string(trem) + " bytes unconsumed";
+          if (tr.status.ok() && trem != n) return at + "with " + std::to_string(n) + " trailing bytes the decoder leaves " + std::to_string(trem) + " bytes unconsumed";
           count("trailing_byte_decodes");
         }
+        if (!r.status.ok() && !stream_matches_f19[op.b % streams.size()]) return at + "a stream the encoder produced does not decode: " + r.status.error_msg_string();
         count("decoder_decodes");
         if (last_kind != 5 && last_kind != -1) *nontriv = true;
       }
